@@ -1,7 +1,7 @@
 /-
   Model of the byte and line layer of the iCalendar push parser in src/evical.c:
   `esccpy` (unfold / unescape copy into the 1024-byte stash), `_ical_pull` (line chopping, the
-  `\001` mark, over-long input), the component state machine of `_ical_proc` (which lines open and
+  newline-seen mark, over-long input), the component state machine of `_ical_proc` (which lines open and
   close VCALENDAR / VEVENT / VTODO / other components, when an instruction is complete, when the
   parser gives up), `echs_evical_push` / `pull` / `last_pull` and the callers' protocol
   (after each push: pull until the verb is unknown; at the end one last pull).
@@ -118,6 +118,7 @@ def procLine (c : Comp) (line : List Byte) : Comp × PRes :=
 structure Parser where
   stash : List Byte := []      -- stash[0 .. six)
   sentinel : Byte := 0         -- stash[six]
+  eolp : Bool := false         -- the stash ends where a newline was, which the bytes to come may turn into a fold
   buf : List Byte := []
   bix : Nat := 0
   comp : Comp := {}
@@ -153,14 +154,17 @@ def pull : Nat → Parser → Parser × PullRes
   | fuel+1, p =>
     -- pre-examination of the stash mark
     let bp := p.buf.getD p.bix 0
-    let marked := p.stash.length ≠ 0 ∧ p.sentinel = 1
-    let p := if marked then { p with sentinel := 0 } else p
+    let marked := p.eolp = true
+    let p := if marked then { p with eolp := false } else p
     if marked ∧ bp ≠ SP ∧ bp ≠ TAB then
-      let (p, r) := doProc p
-      match r with
-      | .none => pull fuel p
-      | .eop => (p, .eop)
-      | .ve => (p, .ve p.comp.cur)
+      -- `goto proc`: `if (!p->six || (res = _ical_proc(p)) == NULL) goto chop_more;` — an empty line is no line
+      if p.stash.length ≠ 0 then
+        let (p, r) := doProc p
+        match r with
+        | .none => pull fuel p
+        | .eop => (p, .eop)
+        | .ve => (p, .ve p.comp.cur)
+      else pull fuel p
     else
       let p := if marked then { p with bix := p.bix + 1 } else p      -- the folding whitespace
       let b := p.buf.drop p.bix
@@ -173,8 +177,8 @@ def pull : Nat → Parser → Parser × PullRes
       else if noEol then
         let (r, sent) := esccpy (stashSize - six) b
         let stash' := match r with | some o => p.stash ++ o | none => p.stash
-        let sent := if eol.isSome then 1 else (match r with | some _ => 0 | none => sent)
-        ({ p with stash := stash', sentinel := sent }, .need)
+        let sent := match r with | some _ => 0 | none => sent
+        ({ p with stash := stash', sentinel := sent, eolp := p.eolp || eol.isSome }, .need)
       else
         let llen := eol.getD 0
         let (r, sent) := esccpy (stashSize - six) (b.take llen)
